@@ -417,6 +417,18 @@ Outcome exec_c12(const C12Case& c, bool keep_log, Stats* stats) {
     e.kind = CatEntry::BYTES; e.bytes = bytes; e.eio_at = c.eio_at; e.short_at = c.short_at; e.skip_mode = c.skip_mode;
   }
   { CatEntry& e = cat[nb]; e.kind = CatEntry::BYTES; e.bytes = shipped_bytes("America/New_York"); }
+  const std::string nd = "sim/" + salt + "/decoy";
+  {
+    CatEntry& e = cat[nd];
+    e.kind = CatEntry::BYTES;
+    switch (c.sched_seed % 5) {
+      case 0: e.bytes = shipped_bytes("Australia/Lord_Howe"); break;
+      case 1: e.bytes = base_bytes("synth:77"); break;
+      case 2: e.bytes = shipped_bytes("America/New_York"); e.bytes.resize(e.bytes.size() - 40); break;            // rejected inside the footer
+      case 3: e.bytes = shipped_bytes("Europe/London"); e.bytes[e.bytes.size() / 2] = '\xff'; break;                // damaged half-way
+      default: e.bytes = base_bytes("synthx:4242"); break;
+    }
+  }
   for (int i = 0; i < c.preload; ++i) { CatEntry& e = cat["sim/" + salt + "/pre" + std::to_string(i)]; e.kind = CatEntry::BYTES; e.bytes = shipped_bytes(i % 2 ? "Europe/London" : "Asia/Tokyo"); }
   env_reset(); fs_reset();
   env.active = true; fs.active = true;
@@ -499,10 +511,17 @@ Outcome exec_c12(const C12Case& c, bool keep_log, Stats* stats) {
   std::vector<std::function<void()>> bodies;
   bodies.push_back([&] {
     for (int i = 0; i < c.preload; ++i) { cctz::time_zone tz; LibraryScope ls; cctz::load_time_zone("sim/" + salt + "/pre" + std::to_string(i), &tz); (void)tz.lookup(tp_of(1700000000 + i)); }
-    paint_stack(0x00); perturb_heap(0x01);
+    // Fresh heap memory is filled (g++ builds, M_PERTURB) with a byte a parser might care about, a
+    // different one for each of the two attempts: an uninitialised read then changes the outcome.
+    static const unsigned char kFill[] = {0x0a, 0x00, 0x30, 0x41, 0x2c, 0xff, 0x3c, 0x3e, 0x80, 0x01, 0x2f, 0x4d};
+    const size_t f1 = static_cast<size_t>(c.sched_seed % 12), f2 = (f1 + 1 + static_cast<size_t>((c.sched_seed / 12) % 11)) % 12;
+    paint_stack(kFill[f1]); perturb_heap(0xff ^ kFill[f1]);
     attempt(n1, &att[0], 0);
     sim::yield(Y_OP);
-    paint_stack(0xff); perturb_heap(0x5a);
+    // A decoy load between the two attempts: if anything of a previously loaded (or half-loaded and
+    // rejected) zone survives into the next load, the second attempt sees different leftovers than the first.
+    { cctz::time_zone dz; LibraryScope ls; cctz::load_time_zone(nd, &dz); if (!(dz == utc)) (void)dz.lookup(tp_of(1600000000)); }
+    paint_stack(kFill[f2]); perturb_heap(0xff ^ kFill[f2]);
     attempt(n2, &att[1], 1);
     perturb_heap(0);
   });
